@@ -119,6 +119,17 @@ def out_of_comb(*needles):
         return all(n in s for n in needles)
     return f
 
+def out_of_step(B, app):
+    """predicate: the value (.1, possibly the Some payload of it) produced by the parser application `app` (a node of body B)"""
+    def f(t, env):
+        t = strip(t)
+        if t[0] == 'variant' and t[2] == 'Some':
+            t = t[1]
+        if not (t[0] == 'field' and t[2] == '1' and t[1][0] == 'variant' and t[1][2] == 'Ok' and t[1][1][0] == 'call' and len(t[1][1]) > 3):
+            return False
+        return B.by_id.get(t[1][1][3]) is app
+    return f
+
 def run(ctx):
     f = ctx.facts
     # ------------------------------------------------------------------ P1 grammar
@@ -288,8 +299,11 @@ def run(ctx):
                 continue
             n += 1
             tag = o.val[2][0][1][1]
-            mr = out_of_comb("b':'", 'attributetype')
-            dn = out_of_comb("b':dn'")
+            # the matching-rule / dn-flag steps by role (what the step parses, ext_roles) and the identity of the application; only
+            # when the chain cannot be read that way, by the literals the combinator expression mentions
+            xr = ext_roles(X.chains.get(FP + name) or [])
+            mr = out_of_step(B, xr['mrule']['app']) if xr else out_of_comb("b':'", 'attributetype')
+            dn = out_of_step(B, xr['dn']['app']) if (xr and 'dn' in xr) else out_of_comb("b':dn'")
             def is_some_pc(pred):
                 def g(pc):
                     for a, t in pc:
@@ -385,7 +399,7 @@ def ext_roles(chain):
     roles = {}
     for e in chain:
         g = e['g']
-        if g == ('ref', FP + 'attributedescription'):
+        if g in (('ref', FP + 'attributedescription'), ('opt', ('ref', FP + 'attributedescription'))):
             k = 'attr'
         elif g == ('ref', FP + 'unescaped'):
             k = 'value'
@@ -442,8 +456,10 @@ def check_outputs(ctx, f, X, rules, classmap):
         except peg.NoNormalForm:
             return False
     def whole_text(p, e, slot, what):
-        v = X.step_value(p, e)
-        part, whole, why = peg.text_part(v, e['g'], fn_value, only_empty)
+        v, g = X.step_value(p, e), e['g']
+        if v[0] == 'opt' and g[0] == 'opt':
+            v, g = v[2], g[1]           # an optional part: the slot (filled when the part is present) receives the payload
+        part, whole, why = peg.text_part(v, g, fn_value, only_empty)
         name = p.split('::')[-1]
         ctx.add('P8.slot-is-the-consumed-text', '%s|%s' % (name, slot), loc(e['app']), whole,
                 'in %s() %s receives the output of `%s`, which is not the bytes that step consumed: %s' % (name, what, peg.show(e['g']), why or peg.show_value(v)))
@@ -486,6 +502,58 @@ def check_outputs(ctx, f, X, rules, classmap):
                 'in %s() the `matchingRule` [1] slot of extensibleMatch receives the output of `%s`, which is not the bytes of the matching rule name (all that the step consumes after the colon): %s' % (
                     name, peg.show(e['g']), ('it is the bytes of `%s`' % peg.show(part)) if part is not None else (why or peg.show_value(v))))
         kinds.add('mrule')
+    # ---- the tree-valued rules: what reaches a semantic action, and what the pass-through rules hand upwards
+    # P3 applies the action of and / or / not / mv_filterlist to a symbolic argument and takes the item parsers' own results for the
+    # leaves; here: that argument is the output of the sub-rule (for a list: of every repetition, in input order), and the rules in
+    # between (filter, filtercomp, filterlist, item, extensible, the entry rules) return one part's output as it is.
+    def resolve(v, depth=0):
+        """a value reduced to outputs of the functions that compute something: ('out', fn) | ('list', r) | ('oneof', {r..}) | ('opaque', text)"""
+        if depth > 40:
+            return ('opaque', 'nested too deeply')
+        if v[0] == 'fn':
+            fv = X.fn_value(v[1])
+            return resolve(fv, depth + 1) if fv[0] in ('fn', 'sub', 'alt', 'list') else ('out', v[1])
+        if v[0] == 'sub':
+            return resolve(v[3], depth + 1)
+        if v[0] == 'alt':
+            rs = frozenset(resolve(x, depth + 1) for x in v[2])
+            return next(iter(rs)) if len(rs) == 1 else ('oneof', rs)
+        if v[0] == 'list':
+            return ('list', resolve(v[2], depth + 1))
+        return ('opaque', peg.show_value(v))
+    def show_r(r):
+        if r[0] == 'out': return 'output of %s()' % r[1].split('::')[-1]
+        if r[0] == 'list': return 'Vec of (%s)' % show_r(r[1])
+        if r[0] == 'oneof': return ' / '.join(sorted(show_r(x) for x in r[1]))
+        return r[1]
+    def leaves(r):
+        if r[0] == 'oneof':
+            return [y for x in r[1] for y in leaves(x)]
+        return [r]
+    n_actions = 0
+    for name, sub, many in (('and', 'filter', True), ('or', 'filter', True), ('not', 'filter', False), ('mv_filterlist', 'item', True)):
+        if FP + name not in f.hir or FP + sub not in f.hir:
+            continue                    # P3.shape reports the missing action
+        v = X.fn_value(FP + name)
+        B = hirq.Body(f, f.hir[FP + name])
+        cl = [n for n, c in walk(B.root) if n['k'] == 'Closure']
+        want = resolve(('fn', FP + sub))
+        want = ('list', want) if many else want
+        got = resolve(v[3]) if v[0] == 'map' else None
+        n_actions += 1
+        ctx.add('P8.action-argument', name, loc(B.root), v[0] == 'map' and bool(cl) and v[1] is cl[-1] and got == want,
+                'the semantic action of %s() (the one P3 evaluates) must be applied to %s; %s() is %s%s' % (
+                    name, show_r(want), name, peg.show_value(v)[:160], (', the action receives ' + show_r(got)) if got is not None else ''))
+    decided = {FP + n for n in ('and', 'or', 'not', 'mv_filterlist')} | {p for p, ch in X.chains.items() if item_roles(ch) is not None or ext_roles(ch) is not None}
+    for entry in ('filtexpr', 'mv_filtexpr'):
+        if FP + entry not in f.hir:
+            continue
+        r = resolve(('fn', FP + entry))
+        bad = [x for x in leaves(r) if not (x[0] == 'out' and x[1] in decided)]
+        ctx.add('P8.tree-passes-through', entry, loc(f.hir[FP + entry]['body']), not bad,
+                'the tree %s() returns must be the result of one of the semantic actions P3 decides, handed upwards unchanged by the rules in between; it can also be: %s' % (
+                    entry, sorted(show_r(x) for x in bad)[:4]))
+    ctx.floor('P8.actions', 'semantic actions whose argument was decided', n_actions, 4)
     ctx.floor('P8', 'kinds of text slots whose feeding parser output was decided (attribute description, operator, substring components, matching rule)', len(kinds), 4)
 
 ATTR = ('param', 'attr')
@@ -756,8 +824,11 @@ def fold_facts(f, U, X=None):
         # fold_many0 folds the outputs of its element parser, one per application, in input order: by nom's definition.  What is
         # folded is therefore the consumed bytes exactly when the element parser's OUTPUT is the byte it consumed (value reading
         # of the element parser: be_u8 under any number of `verify`s; a `map` in between would feed the unescaper something else)
+        # ... and what unescaped() returns is the acceptance test's payload of that very fold, nothing applied on top of it
         el = X.value_of(fold['args'][0], U.path) if X is not None else ('unknown', 'no extractor')
-        return ok_init, ok_step, ok_acc, el == peg.BYTE, 'fold_many0 over ' + peg.show_value(el)
+        fv = X.fn_value(U.path) if X is not None else ('unknown', 'no extractor')
+        direct = fv[0] == 'mapres' and fv[1] is fin_c and fv[3][0] == 'fold' and fv[3][3] is init_c and fv[3][4] is step_c
+        return ok_init, ok_step, ok_acc, el == peg.BYTE and direct, 'fold_many0 over %s; the function returns %s' % (peg.show_value(el), peg.show_value(fv))
     # (b) a loop
     try:
         outs = I.run()
